@@ -415,8 +415,15 @@ func genFull(seed int64, property string) *Plan {
 		kills = r.Intn(2) == 0
 		weights = map[string]int{"ok": 10, "slow": 6, "fail": 3, "hang": 2}
 		p.Saturate = r.Intn(3) > 0
+		if r.Intn(3) == 0 {
+			// finished Jobs that outlive the whole run (they stay in every cache)
+			p.Dyn.DefaultTTLSec = i64(1000000)
+		}
 	case "C07":
 		p.Saturate = r.Intn(2) == 0
+		if r.Intn(3) == 0 {
+			p.Dyn.DefaultTTLSec = i64(1000000)
+		}
 		nAdhoc = 2 + r.Intn(4)
 		nIndep = 2 + r.Intn(4)
 		faulty = r.Intn(4) == 0
